@@ -98,7 +98,7 @@ type concResult struct {
 }
 
 // runConcHistory: G goroutines x few seats, at most ~60 operations
-func runConcHistory(r *rand.Rand, max, G, perG int) *concResult {
+func runConcHistory(r *rand.Rand, max, G, perG int, mixed bool) *concResult {
 	m := sm.NewSeatManager(max)
 	var clock int64
 	res := &concResult{}
@@ -121,6 +121,11 @@ func runConcHistory(r *rand.Rand, max, G, perG int) *concResult {
 				in = seatIn{'C', 0, max}
 			default:
 				in = seatIn{'J', r.Intn(max+4) - 2, max}
+			}
+			if mixed && r.Intn(3) == 0 {
+				// the other public mutators and readers, racing with joins and leaves (not part of the
+				// linearizability model: these histories are checked by the race detector, recover() and the ledger)
+				in = seatIn{[]byte{'S', 'R', 'N', 'P', 'A'}[r.Intn(5)], r.Intn(max), max}
 			}
 			plans[g] = append(plans[g], in)
 		}
@@ -153,6 +158,16 @@ func runConcHistory(r *rand.Rand, max, G, perG int) *concResult {
 						out = seatOut{OK: err == nil}
 					case 'C':
 						out = seatOut{N: m.GetPlayerCount()}
+					case 'S':
+						m.Seat(in.Seat)
+					case 'R':
+						m.Reserve(in.Seat)
+					case 'N':
+						m.Next()
+					case 'P':
+						_ = m.GetPlayableSeatCount() + m.GetAvailableSeatCount()
+					case 'A':
+						m.GetAvailableSeats()
 					}
 				}()
 				ret := atomic.AddInt64(&clock, 1)
@@ -252,8 +267,12 @@ func concBatch(prop string, seed int64, stream int64, n int, rep *Report, parall
 				for G*perG > 60 {
 					G--
 				}
-				res := runConcHistory(r, max, G, perG)
+				mixed := i%5 == 4
+				res := runConcHistory(r, max, G, perG, mixed)
 				local.Inc("concurrent_histories")
+				if mixed {
+					local.Inc("concurrent_histories_mixed_operations")
+				}
 				local.Add("concurrent_operations", int64(len(res.ops)))
 				if res.contended {
 					local.Inc("class_contended_joins")
@@ -270,6 +289,10 @@ func concBatch(prop string, seed int64, stream int64, n int, rep *Report, parall
 					continue
 				}
 				if len(res.panics) > 0 {
+					continue
+				}
+				if mixed {
+					local.Inc("mixed_histories_ledger_ok")
 					continue
 				}
 				r2 := porcupine.CheckOperationsTimeout(seatModel, res.ops, 20*time.Second)
